@@ -118,6 +118,10 @@ func c16Variations(hist func(string), tn string) []c16Var {
 		{Name: "via-symlink-relative-spelling-dot-segment", Cwd: "/v/links", Src: "./chain/."},
 		{Name: "via-symlinked-parent-directory", Cwd: "/", Src: "/v/plink/tree"},
 		{Name: "via-symlinked-parent-directory-relative", Cwd: "/v", Src: "plink/tree/"},
+		{Name: "symlinked-parent-pointed-elsewhere-at-an-earlier-pack", Cwd: "/", Src: "/v/rel/current/tree", Prep: func() error { hist("retarget"); return nil }},
+		{Name: "symlinked-parent-pointed-elsewhere-at-an-earlier-pack-relative", Cwd: "/v/rel", Src: "current/tree"},
+		{Name: "root-link-with-dotdot-target-reached-through-a-symlinked-directory", Cwd: "/", Src: "/v/a/b/slinks/current2"},
+		{Name: "root-link-with-dotdot-target-reached-through-a-symlinked-directory-relative", Cwd: "/v/a", Src: "b/slinks/current2/"},
 		{Name: "after-pack-of-another-tree", Cwd: "/", Src: "/v/work/tree", Prep: func() error { hist("other"); return nil }},
 		{Name: "after-pack-of-negation-first-rules", Cwd: "/", Src: "/v/work/tree", Prep: func() error { hist("neg"); return nil }},
 		{Name: "after-50-mixed-calls", Cwd: "/v/else", Src: "/v/work/tree", Prep: func() error {
@@ -156,6 +160,14 @@ func c16Run(env *fw.Env, idx int) fw.Result {
 	// a decoy: what the relative link targets below would name if they were
 	// read against the working directory /v/else/deep instead of the link's place
 	c16Materialise("/v/else/work/"+tn, gen.TreeSpec{Nodes: []gen.NodeSpec{{Path: "decoy.txt", Kind: "file", Mode: 0644, Content: "decoy", Mtime: 1500000000}}}, "")
+	// a root link whose ".." means something else where the link really lives
+	// (/v/store/links) than where its spelled path suggests (/v/a/b/slinks);
+	// a decoy sits where the spelled path would lead
+	os.MkdirAll("/v/store/links", 0755)
+	os.MkdirAll("/v/a/b", 0755)
+	os.Symlink("../../work/"+tn, "/v/store/links/current2")
+	os.Symlink("../../store/links", "/v/a/b/slinks")
+	c16Materialise("/v/a/work/"+tn, gen.TreeSpec{Nodes: []gen.NodeSpec{{Path: "decoy.txt", Kind: "file", Mode: 0644, Content: "decoy", Mtime: 1500000000}}}, "")
 	os.Symlink("/v/work", "/v/plink")
 	os.Symlink("/v/work/"+tn, "/v/links/abs")
 	os.Symlink("../work/"+tn, "/v/links/rel")
@@ -178,6 +190,17 @@ func c16Run(env *fw.Env, idx int) fw.Result {
 			os.Chdir("/v/alt/" + tn)
 			doPack(".", opts)
 			os.Chdir("/")
+		case "retarget":
+			// the path /v/rel/current/<tree> led to another tree when it was
+			// packed before: "current" has been pointed elsewhere since
+			c16Materialise("/v/rel/v1/"+tn, gen.TreeSpec{Nodes: []gen.NodeSpec{{Path: "keep.txt", Kind: "file", Mode: 0644, Content: "earlier release", Mtime: 1500000000}, {Path: "z/l", Kind: "link", Target: "../keep.txt"}}}, altRules(rules))
+			os.Symlink("v1", "/v/rel/current")
+			doPack("/v/rel/current/"+tn, opts)
+			os.Chdir("/v/rel")
+			doPack("current/"+tn, opts)
+			os.Chdir("/")
+			os.Remove("/v/rel/current")
+			os.Symlink("../work", "/v/rel/current")
 		default:
 			doPack("/v/hist/"+which, packOpts{Ignore: true})
 		}
@@ -234,6 +257,9 @@ func c16Concurrent(env *fw.Env, idx int) fw.Result {
 		rules string
 		sig   string
 		out   packObs
+		// legacy: packed through the package-level Pack function, which
+		// takes the dereference choice as an argument
+		legacy bool
 	}
 	jobs := make([]*job, n)
 	var desc []string
@@ -246,6 +272,14 @@ func c16Concurrent(env *fw.Env, idx int) fw.Result {
 			rules = "" // default rules only
 		}
 		j := &job{dir: fmt.Sprintf("/cc/t%d", i), opts: packOpts{Ignore: true, Deref: r.Chance(1, 2)}, rules: rules}
+		if idx%2 == 0 && i%2 == 0 {
+			// a link to something outside the tree: whether dereferencing
+			// is on decides between a copy of the file and a refusal
+			j.legacy = true
+			j.opts.Deref = i%4 == 0
+			t.Nodes = append(t.Nodes, gen.NodeSpec{Path: "to-outside.txt", Kind: "link", Target: "../outside-of-the-trees/file.txt"})
+			mustWrite("/cc/outside-of-the-trees/file.txt", "outside", 0644)
+		}
 		if err := c16Materialise(j.dir, t, rules); err != nil {
 			j.dir = ""
 		}
@@ -300,13 +334,19 @@ func c16Concurrent(env *fw.Env, idx int) fw.Result {
 			defer wg.Done()
 			<-start
 			for k := 0; k < 3; k++ {
-				if shared == nil {
+				if shared == nil && !j.legacy {
 					j.out = doPack(j.dir, j.opts)
 					continue
 				}
 				var o packObs
 				var buf bytes.Buffer
-				panicked, pv := fw.Try(func() { o.Meta, o.Err = shared.Pack(j.dir, &buf) })
+				panicked, pv := fw.Try(func() {
+					if j.legacy {
+						o.Meta, o.Err = slug.Pack(j.dir, &buf, j.opts.Deref)
+					} else {
+						o.Meta, o.Err = shared.Pack(j.dir, &buf)
+					}
+				})
 				if panicked {
 					o.Panic = pv
 				}
@@ -327,6 +367,11 @@ func c16Concurrent(env *fw.Env, idx int) fw.Result {
 		}
 		solo := doPack(j.dir, j.opts)
 		res.Evals++
+		if solo.Panic == "" && solo.Err != nil && j.out.Panic == "" && j.out.Err == nil {
+			res.Verdict, res.Finding = fw.Violated, "concurrent-differs"
+			res.Msg = fmt.Sprintf("Pack of tree %d succeeded while other Pack calls were running but is refused alone (%v)", i, solo.Err)
+			return res
+		}
 		if solo.Err != nil || solo.Panic != "" {
 			continue
 		}
@@ -438,7 +483,7 @@ func init() {
 	fw.Register(&fw.Property{
 		ID:    "C16",
 		Level: "exploration",
-		Rule: "for each generated tree (with one of 7 rule files) and option set, Pack runs once by the absolute clean path (baseline) and then under 23 variations: 8 spellings/working directories (trailing slash, doubled slash, dot segments, relative from parent / inside / elsewhere / sibling), 8 ways through a symlink (absolute target, relative target with the working directory elsewhere and at the link, chain of two, trailing slash, dot segments after the link, a symlinked parent directory; a decoy tree sits where relative link targets would lead from the working directory) and 5 call histories (another tree, a rule file beginning with a negation, the same relative spelling / '.' used earlier from another working directory for a different tree whose rule file has the same size and mtime, 50 mixed calls); decoded entry lists must be identical. " +
+		Rule: "for each generated tree (with one of 7 rule files) and option set, Pack runs once by the absolute clean path (baseline) and then under 27 variations: 8 spellings/working directories (trailing slash, doubled slash, dot segments, relative from parent / inside / elsewhere / sibling), 8 ways through a symlink (absolute target, relative target with the working directory elsewhere and at the link, chain of two, trailing slash, dot segments after the link, a symlinked parent directory; a decoy tree sits where relative link targets would lead from the working directory) and 7 call histories (the same path led to another tree at an earlier Pack because a symlinked parent directory has been pointed elsewhere since, another tree, a rule file beginning with a negation, the same relative spelling / '.' used earlier from another working directory for a different tree whose rule file has the same size and mtime, 50 mixed calls); decoded entry lists must be identical. " +
 			"Reuse: one Packer value (options incl. relative AllowSymlinkTarget entries) packs three different roots in PRNG order and every output must equal that of a fresh Packer with the same options. Concurrency: fresh race-instrumented worker per round, 8-16 goroutines packing different trees (default rules / negation-first rule files mixed) 3 times each behind a barrier (every other round through one shared Packer value; half of the rounds after Pack calls whose destination failed at the first byte, half way and at the final flush), outputs compared with solo runs; any race report is a violation. non-trivial = every case (each has >=1 non-baseline variation); distinct = tree x rules x options",
 		Assumptions: []string{"the baseline run is Pack of the absolute clean path in the same process", "the race detector only sees the interleavings the scheduler produced in these rounds"},
 		Phases:      []*fw.Phase{variations, reused, conc},
